@@ -215,7 +215,35 @@ def sweep_helpers(tier, seed):
           yield dict(N=n, lo=a, hi=c, size=size)
 
 
+def check_entry(inp):
+  """hparams object + keyword overrides at the public entry points: every override wins, falsy ones included."""
+  n, b = inp['N'], inp['batch_size']
+  d = cds.ClientDataset({'x': np.arange(n)})
+  for drop_hp in (True, False):
+    for drop_kw in (True, False):
+      got = [len(x['x']) for x in d.batch(cds.BatchHParams(batch_size=b, drop_remainder=drop_hp), drop_remainder=drop_kw)]
+      want = [len(x['x']) for x in d.batch(batch_size=b, drop_remainder=drop_kw)]
+      if got != want:
+        return (f'batch(BatchHParams(batch_size={b}, drop_remainder={drop_hp}), drop_remainder={drop_kw}) on {n} examples gives '
+                f'batch sizes {got}; the keyword override alone gives {want}')
+      hp = cds.ShuffleRepeatBatchHParams(batch_size=b, num_epochs=2, drop_remainder=drop_hp, seed=1)
+      got = len(list(d.shuffle_repeat_batch(hp, drop_remainder=drop_kw)))
+      want = len(list(d.shuffle_repeat_batch(batch_size=b, num_epochs=2, drop_remainder=drop_kw, seed=1)))
+      if got != want:
+        return f'shuffle_repeat_batch(hparams(drop_remainder={drop_hp}), drop_remainder={drop_kw}): {got} batches, expected {want}'
+  got = len(list(d.shuffle_repeat_batch(cds.ShuffleRepeatBatchHParams(batch_size=b, num_epochs=1, num_steps=3), num_epochs=None)))
+  if got != 3:
+    return f'shuffle_repeat_batch(hparams(num_epochs=1, num_steps=3), num_epochs=None) on {n} examples: {got} batches, expected 3'
+
+
+def sweep_entry(tier, seed):
+  for n in (1, 5, 6):
+    for b in (2, 3, 7):
+      yield dict(N=n, batch_size=b)
+
+
 CHECKERS = {
+    'entry': (check_entry, sweep_entry),
     '_pick_final_batch_size': (check_pick, sweep_pick),
     'BatchView': (check_batch, sweep_batch),
     'PaddedBatchView': (check_padded, sweep_padded),
